@@ -605,6 +605,21 @@ def ghost_zero_key():
     _symbolic_only()
 
 
+def csv_nrows(records):
+    """number of records the csv reader yielded"""
+    _symbolic_only()
+
+
+def csv_rowlen(records, i):
+    """number of cells of record i"""
+    _symbolic_only()
+
+
+def csv_text(records, i, j):
+    """text of cell j of record i"""
+    _symbolic_only()
+
+
 def sort_source(sorted_seq, p):
     """position, in the sequence that was sorted, of the element now at position p"""
     _symbolic_only()
